@@ -121,7 +121,9 @@ pub fn stream_rng(seed: u64, stream: &str) -> Rng {
 
 fn main() {
     // panics of the code under test are caught and reported; keep stderr quiet
-    std::panic::set_hook(Box::new(|_| {}));
+    if std::env::var("HX_DEBUG").is_err() {
+        std::panic::set_hook(Box::new(|_| {}));
+    }
     let seed = seed();
     let thorough = tier_is_thorough();
     let out = out_dir("C04");
